@@ -50,6 +50,7 @@ import (
 	"github.com/tikv/pd/server/schedule/operator"
 	"github.com/tikv/pd/server/schedule/opt"
 	"github.com/tikv/pd/server/schedule/placement"
+	"github.com/tikv/pd/server/versioninfo"
 	"go.uber.org/zap"
 	"verif/engine/evidence"
 	"verif/engine/regionsim"
@@ -84,6 +85,7 @@ type envSpec struct {
 	Layout   int   `json:"layout"`   // 0 no location labels; 1 zones z1 z1 z2 z2 z3 z3, location-labels [zone]
 	Replicas int   `json:"replicas"` // max-replicas = voters of the default rule
 	Rules    int   `json:"rules"`    // 0 placement rules off; 1 on (default rule); 2 on + 1 learner on engine=tiflash; 3 on + 1 learner anywhere
+	Joint    int   `json:"joint,omitempty"` // 0 joint consensus supported and enabled; 1 switched off (enable-joint-consensus=false); 2 not supported (stores older than 5.0)
 }
 
 func (e envSpec) key() string { b, _ := json.Marshal(e); return string(b) }
@@ -95,7 +97,8 @@ func (e envSpec) String() string {
 			st = append(st, fmt.Sprintf("%d=%s", i+1, kindStr[s]))
 		}
 	}
-	return fmt.Sprintf("stores=%d replicas=%d rules=%d layout=%d non-up[%s]", e.N, e.Replicas, e.Rules, e.Layout, strings.Join(st, ","))
+	j := []string{"", " joint-off", " joint-unsupported"}[e.Joint]
+	return fmt.Sprintf("stores=%d replicas=%d rules=%d layout=%d%s non-up[%s]", e.N, e.Replicas, e.Rules, e.Layout, j, strings.Join(st, ","))
 }
 
 func (e envSpec) kind(store uint64) int {
@@ -172,7 +175,15 @@ func newCluster(e envSpec) (*mockcluster.Cluster, context.CancelFunc) {
 		rc.LocationLabels = []string{"zone"}
 	}
 	opts.SetReplicationConfig(rc)
+	if e.Joint == 1 {
+		sc := opts.GetScheduleConfig().Clone()
+		sc.EnableJointConsensus = false
+		opts.SetScheduleConfig(sc)
+	}
 	c := mockcluster.NewCluster(ctx, opts)
+	if e.Joint == 2 {
+		c.DisableFeature(versioninfo.JointConsensus)
+	}
 	c.SetLabelPropertyConfig(config.LabelPropertyConfig{opt.RejectLeader: {{Key: "noleader", Value: "never"}, {Key: "noleader", Value: "true"}}})
 	for i := 0; i < e.N; i++ {
 		c.PutStore(newStore(e, uint64(i+1), 0, 0))
